@@ -111,6 +111,13 @@ var c07Symbols = []string{"{", "}", "[", "]", `"`, ":", ",", "0", "-", "n", "t",
 
 var c07Replacements = []string{`null`, `true`, `false`, `0`, `-1`, `1.5`, `1e400`, `9007199254740993`, `""`, `"s"`, `[]`, `{}`, `[null]`, `[{}]`, `{"a":null}`, `"%zz"`, `"::"`, `"\u0000\u001f"`, `{"$ref":"#/x"}`}
 
+// members added to every object of every seed document (name, value)
+var c07Additions = [][2]string{
+	{"x", `0`}, {"X", `"s"`}, {"x-", `{}`}, {"", `0`}, {"$", `0`}, {"-", `0`}, {"é", `0`},
+	{"$ref", `"#/definitions/50%25"`}, {"$ref", `"#/definitions/a%2520b"`}, {"$ref", `"a%2541.json#/x"`}, {"$ref", `"#/a b"`}, {"$ref", `"http://H.example:80//a#"`},
+	{"x-order", `{}`}, {"x-order", `[1]`}, {"x-order", `-1`},
+}
+
 // ordered JSON (to build duplicate members and exact texts)
 type okv struct {
 	k string
@@ -185,6 +192,13 @@ func c07Mutants(doc interface{}, f func(text string, gen string, totalityOnly bo
 		set(orig)
 		switch t := orig.(type) {
 		case *oobj:
+			// one more member: shortest possible names, a bare extension prefix, hostile reference values
+			saved0 := t.kv
+			for _, add := range c07Additions {
+				t.kv = append(append([]okv{}, saved0...), okv{add[0], json.RawMessage(add[1])})
+				emit("add-member:"+add[0]+"="+add[1], false)
+			}
+			t.kv = saved0
 			for i := range t.kv {
 				i := i
 				saved := t.kv
@@ -335,6 +349,19 @@ func c07Run(c *Ctx) {
 			}
 		}
 	}
+	// (b') pairs of x-order values of any JSON type on two sibling properties / pattern properties
+	xo := []string{`0`, `1`, `-1`, `1.5`, `"1"`, `"a"`, `true`, `null`, `{}`, `[]`, `[1]`, `{"a":1}`, `1e19`, `""`}
+	for _, holder := range []string{"properties", "patternProperties"} {
+		for _, a := range xo {
+			for _, b := range xo {
+				if !c.Mine() {
+					continue
+				}
+				c.Res.States++
+				run(c07Case{Type: "Schema", Gen: "x-order-pair", Input: fmt.Sprintf(`{%q:{"a":{"x-order":%s},"b":{"x-order":%s},"c":{}}}`, holder, a, b)})
+			}
+		}
+	}
 	// (c) deep nesting of every recursive position
 	depths := []int{10, 100, 1000}
 	if !c.Quick() {
@@ -369,7 +396,7 @@ func c07Run(c *Ctx) {
 func init() {
 	register(&CheckDef{
 		ID: "C07", Build: "light", Run: c07Run, RunCase: c07RunCase, Risky: true,
-		Rule:        "states = (a) every string of length <= bound over the 14 symbols { } [ ] \" : , 0 - n t \\ space a, (b) every single-position mutation (19 replacement values, delete, duplicate with 5 values, case variant, wrap) of every seed document of cost <= 1 of the 17 kinds, directly and below the Swagger root, (c) nesting of each recursive position to the listed depths; each decoded into every exported data type (json.Unmarshal, and UnmarshalJSON called directly); oracle: no panic/death, and decode->encode is a byte-exact fixed point; non-trivial = the input decoded successfully and the fixed point was checked",
+		Rule:        "states = (a) every string of length <= bound over the 14 symbols { } [ ] \" : , 0 - n t \\ space a, (b) every single-position mutation (19 replacement values, delete, duplicate with 5 values, case variant, wrap, 15 added members: one-letter and empty names, a bare x- prefix, $ref values with %25 / spaces / non-canonical URLs, x-order of any JSON type) of every seed document of cost <= 1 of the 17 kinds, directly and below the Swagger root, (b') every pair of 14 x-order values on two sibling properties / pattern properties, (c) nesting of each recursive position to the listed depths; each decoded into every exported data type (json.Unmarshal, and UnmarshalJSON called directly); oracle: no panic/death, and decode->encode is a byte-exact fixed point; non-trivial = the input decoded successfully and the fixed point was checked",
 		Assumptions: []string{"member names that case-fold onto a keyword are checked for totality only (the statement's exception)", "a case that kills the worker process (stack exhaustion, fatal error) is attributed to the announced case and reported as a violation"},
 		MinOutcomes: 3,
 	})
